@@ -10,7 +10,7 @@ Request  {"engine":"report","op":"run","cfg":{…},"deadline":null|n,"now":n,"pl
   PLAN   {"op":"mock","rows":[ROW],"failAt":null|n,"sleepAt":null|[k,d]}
          {"op":"table","file":[[ROW,bool]],"mem":[ROW],"includeMem":b,"oomAt":null|c,
                        "co":null|{"deadline":null|n,"first":b,"fault":FAULT}}
-         {"op":"cluster","parts":[{"rows":[ROW],"outcome":{"kind":"ok"|"noHandler"|"failAfter"|"silentAfter"|"retryAfter"|"eofAfter","k":n}
+         {"op":"cluster","parts":[{"rows":[ROW],"outcome":{"kind":"ok"|"noHandler"|"failAfter"|"silentAfter"|"retryAfter"|"eofAfter"|"endErrorAfter","k":n}
                                    (or "attempts":[{"kind":"stale"}|OUTCOME …], the queue of handlers)}],
                          "events":[{"e":"msg","p":n,"early":b}|{"e":"tick","d":n}|{"e":"timeout"}],"unflat":b}
          {"op":"filter","mod":m,"rem":r,"errKey":null|key,"panicKeys":[key],"minVal":null|x,"p":PLAN}
@@ -111,6 +111,7 @@ def rpOutcome (j : Json) : R PartOutcome := do
   | "silentAfter" => pure (.silentAfter (← nat j "k"))
   | "retryAfter" => pure (.retryAfter (← nat j "k"))
   | "eofAfter" => pure (.eofAfter (← nat j "k"))
+  | "endErrorAfter" => pure (.endErrorAfter (← nat j "k"))
   | k => throw s!"report: unknown outcome {k}"
 
 /-- a partition's queue of handlers: `[{"kind":"stale"} | OUTCOME …]` -/
